@@ -168,7 +168,7 @@ theorem SiftContractS.toDefault {ext : Nat → Nat} (hS : SiftContractS ext) : S
 /-- first attempt aborted by a request, then `reorder(bdd)` fails: its exception reaches the
 caller (in the model the only such exception is `.sched`; the real `reorder` never raises here,
 C07) -/
-theorem tryToReorder_sift_err {α} (f : M α) (m m1 m3 : Mgr) (e : Err)
+theorem tryToReorder_reorder_raises {α} (f : M α) (m m1 m3 : Mgr) (e : Err)
     (hctx : m.ctx = false)
     (h1 : f { m with ctx := true } = (.error .needsReordering, m1))
     (h2 : reorder none { m1 with ctx := m.ctx, lastLen := none } = (.error e, m3)) :
@@ -317,7 +317,7 @@ theorem tryToReorder_transparentS {α} (ext : Nat → Nat) (hS : SiftContractS e
       ⟨m3, hre, hD3, hl3, hnv3, hnames3, hden3, hroots3, hsch3⟩ | ⟨m3, hre, hne⟩
     rotate_left
     · -- sifting reports that the recorded schedule does not fit
-      rw [tryToReorder_sift_err f m m1 m3 .sched hD.ctx he hre]
+      rw [tryToReorder_reorder_raises f m m1 m3 .sched hD.ctx he hre]
       exact ⟨rfl, by rw [← hsch2]; exact hne⟩
     have hW3 := hD3.inv.wf.toWF
     -- the bridge from the table of the call to the table after sifting
@@ -495,7 +495,7 @@ theorem tryToReorder_rejectedS {α} (ext : Nat → Nat) (hS : SiftContractS ext)
     rcases hS.run m2 hD2 rfl with
       ⟨m3, hre, hD3, hl3, hnv3, hnames3, hden3, hroots3, hsch3⟩ | ⟨m3, hre, hne⟩
     rotate_left
-    · rw [tryToReorder_sift_err f m m1 m3 .sched hD.ctx he hre]
+    · rw [tryToReorder_reorder_raises f m m1 m3 .sched hD.ctx he hre]
       exact Or.inr ⟨rfl, by rw [← hsch2]; exact hne⟩
     have hW3 := hD3.inv.wf.toWF
     have hB : Bridge ops m.tbl m3.tbl := by
